@@ -4,7 +4,7 @@
    the ARGUMENTS (every variable bound; count-filter arguments are integers / integer lists). *)
 From Coq Require Import Lia Sorted Permutation.
 From TF Require Import Values Graph Exec Sem ExecLemmas Sim SimRec SimComp FoldOut SimGen ExecNoPanic WfCheck
-                       NoPanic NoPanicFold NoPanicProofs WfIR WfIRProofs WfRefine.
+                       NoPanic NoPanicFold NoPanicProofs Args ArgsProofs WfIR WfIRProofs WfRefine.
 Local Open Scope string_scope.
 Local Open Scope N_scope.
 Local Open Scope list_scope.
@@ -561,4 +561,83 @@ Theorem wf_np_engine_panics_only_in_operators re g args q q' site :
 Proof.
   intros Hi Hwf Hl Hfit Hp.
   exact (interpret_panics_only_in_operators re g args Hi q' site (wf_np_ok args q q' Hwf Hl Hfit) Hp).
+Qed.
+
+(* ================================================================== *)
+(* 7. args_fit from argument validation (C12)                          *)
+(* ================================================================== *)
+(* If the arguments are accepted by the engine's validation (Args.validate, property C12) and the
+   variables used by fold-count filters are recorded as Int! ([Int!]! for one_of / not_one_of) —
+   the typing fact the frontend establishes for count filters (DESIGN A.4 #10), not part of wf_ir —
+   then args_fit holds. *)
+Definition member_op (op : opk) : bool := match op with OneOf | NotOneOf => true | _ => false end.
+Definition ty_eqb (a b : ty) : bool := String.eqb (tbase a) (tbase b) && N.eqb (tmask a) (tmask b).
+Definition count_var_typed (vars : list (string * ty)) (pf : pfilter) : bool :=
+  match pf_arg pf with
+  | Some (AVar x _) =>
+      match lookup_str x vars with
+      | Some t0 => ty_eqb t0 (if member_op (pf_op pf) then mkTy "Int" 7 else mkTy "Int" 1)
+      | None => false
+      end
+  | _ => true
+  end.
+
+Fixpoint count_vars_typed (vars : list (string * ty)) (c : ir_component) {struct c} : bool :=
+  match c with
+  | mkComp _ _ ss _ =>
+      (fix go (todo : list step) : bool :=
+         match todo with
+         | [] => true
+         | SEdge _ :: r => go r
+         | SFold h sub :: r => forallb (count_var_typed vars) (fo_post h) && count_vars_typed vars sub && go r
+         end) ss
+  end.
+
+Lemma ty_eqb_eq a b : ty_eqb a b = true -> a = b.
+Proof.
+  destruct a, b. unfold ty_eqb. cbn. intros H. apply andb_prop in H. destruct H as (H1 & H2).
+  apply String.eqb_eq in H1. apply N.eqb_eq in H2. now subst.
+Qed.
+
+Lemma valid_int_nonnull v : ty_valid (mkTy "Int" 1) v = Ok true -> ExecNoPanic.is_int v = true.
+Proof. destruct v; cbn; intros H; try reflexivity; try discriminate. Qed.
+
+Lemma valid_int_list v : ty_valid (mkTy "Int" 7) v = Ok true ->
+  match v with List l => forallb ExecNoPanic.is_int l = true | _ => False end.
+Proof.
+  destruct v as [| | | | | | |l]; try (cbn; discriminate).
+  cbn [ty_valid]. change (ty_as_list (mkTy "Int" 7)) with (Some (mkTy "Int" 1)).
+  induction l as [|x r IH]; [reflexivity|]. cbn [forallb].
+  destruct (ty_valid (mkTy "Int" 1) x) as [[|]|] eqn:E; cbn [bind]; try discriminate.
+  intros H. rewrite (valid_int_nonnull _ E). exact (IH H).
+Qed.
+
+Lemma count_arg_ok_of_valid vars args pf :
+  ArgsProofs.acceptable vars args -> count_var_typed vars pf = true -> count_arg_ok args pf = true.
+Proof.
+  intros (Hacc & _). unfold count_var_typed, count_arg_ok. destruct (pf_arg pf) as [[t|x ty]|]; try reflexivity.
+  destruct (lookup_str x vars) as [t0|] eqn:El; [|discriminate]. intros Ht. apply ty_eqb_eq in Ht.
+  apply lookup_str_in in El. destruct (Hacc _ _ El) as (v & -> & Hv). rewrite Ht in Hv.
+  destruct (pf_op pf); cbn [member_op] in Hv; try exact (valid_int_nonnull _ Hv);
+    (pose proof (valid_int_list _ Hv) as Hl; destruct v; try contradiction; exact Hl).
+Qed.
+
+Lemma count_args_of_valid vars args : ArgsProofs.acceptable vars args ->
+  forall c, count_vars_typed vars c = true -> count_args_ok args c = true.
+Proof.
+  intros Hacc. induction c as [root vs ss outs IH] using ir_component_ind'. cbn [count_vars_typed count_args_ok].
+  induction IH as [|[e|h sub] r Hs _ IHr]; intros H; [reflexivity|exact (IHr H)|].
+  apply andb_prop in H. destruct H as (H & Hr). apply andb_prop in H. destruct H as (Hp & Hsub). cbn [step_P] in Hs.
+  rewrite (Hs Hsub), (IHr Hr), !andb_true_r. apply forallb_forall. intros pf Hpf.
+  rewrite forallb_forall in Hp. exact (count_arg_ok_of_valid vars args pf Hacc (Hp _ Hpf)).
+Qed.
+
+Theorem validate_args_fit args q' :
+  Args.validate (q_vars q') args = Ok Args.VOk -> count_vars_typed (q_vars q') (q_comp q') = true ->
+  args_fit args q' = true.
+Proof.
+  intros Hv Ht. apply ArgsProofs.validate_ok_iff in Hv. unfold args_fit. apply andb_true_intro. split.
+  - apply forallb_forall. intros [x t] Hin. destruct Hv as (Hacc & _). destruct (Hacc _ _ Hin) as (v & E & _).
+    cbn [fst]. now rewrite E.
+  - exact (count_args_of_valid _ _ Hv _ Ht).
 Qed.
